@@ -69,7 +69,38 @@ pub struct Built {
     pub desc: String,
 }
 
-fn sink_of<T: Elem + Sync>(r: ReadStream<T>, blocks: &mut Vec<B>, sinks: &mut Vec<Box<dyn Fn() -> Vec<u64> + Send>>) {
+/// Directory for the files of FileSink sinks (set while `run` is active).
+static FILE_DIR: Mutex<Option<std::path::PathBuf>> = Mutex::new(None);
+static FILE_CTR: std::sync::atomic::AtomicUsize = std::sync::atomic::AtomicUsize::new(0);
+
+/// A sink: VectorSink, or (`as_file`) a FileSink whose file is read back when the result is taken — which
+/// happens when `run()` has returned and the graph still exists ("every sink holds the result at return").
+fn sink_of<T>(r: ReadStream<T>, blocks: &mut Vec<B>, sinks: &mut Vec<Box<dyn Fn() -> Vec<u64> + Send>>, as_file: bool)
+where
+    T: Elem + Sync + rustradio::Sample<Type = T> + std::fmt::Debug + Default,
+{
+    let dir = FILE_DIR.lock().unwrap().clone();
+    if let (true, Some(dir)) = (as_file, dir) {
+        let k = FILE_CTR.fetch_add(1, std::sync::atomic::Ordering::SeqCst);
+        let path = dir.join(format!("sink{k}.bin"));
+        let s = rustradio::file_sink::FileSink::new(r, &path, rustradio::file_sink::Mode::Overwrite).expect("file sink");
+        blocks.push(Box::new(s));
+        sinks.push(Box::new(move || {
+            let bytes = std::fs::read(&path).unwrap_or_default();
+            let _ = std::fs::remove_file(&path);
+            bytes
+                .chunks_exact(T::SIZE)
+                .map(|c| {
+                    let mut v = 0u128;
+                    for (i, b) in c.iter().enumerate() {
+                        v |= (*b as u128) << (8 * i);
+                    }
+                    T::from_nat(v).to_obs() as u64
+                })
+                .collect()
+        }));
+        return;
+    }
     let s = VectorSink::new(r, 100_000_000);
     let hook = s.hook();
     blocks.push(Box::new(s));
@@ -317,10 +348,10 @@ pub fn build(seed: u64) -> Built {
     // fill - a bounded-buffer deadlock of the graph, excluded by C05's hypothesis, not a runner defect.)
     for e in open {
         match e {
-            Edge::U8(r) => sink_of(r, &mut blocks, &mut sinks),
-            Edge::U32(r) => sink_of(r, &mut blocks, &mut sinks),
-            Edge::F32(r) => sink_of(r, &mut blocks, &mut sinks),
-            Edge::C(r) => sink_of(r, &mut blocks, &mut sinks),
+            Edge::U8(r) => sink_of(r, &mut blocks, &mut sinks, rng.chance(1, 3)),
+            Edge::U32(r) => sink_of(r, &mut blocks, &mut sinks, rng.chance(1, 3)),
+            Edge::F32(r) => sink_of(r, &mut blocks, &mut sinks, rng.chance(1, 3)),
+            Edge::C(r) => sink_of(r, &mut blocks, &mut sinks, rng.chance(1, 3)),
             Edge::Pkt(r) => {
                 let store = Arc::new(Mutex::new(vec![]));
                 let s2 = store.clone();
@@ -421,19 +452,24 @@ fn run_config(seed: u64, cfg: Config, rng: &mut Rng) -> std::result::Result<Vec<
             for b in blocks {
                 gr.add(b);
             }
-            quiet(|| gr.run().map_err(|e| e.to_string()))
+            let r = quiet(|| gr.run().map_err(|e| e.to_string()));
+            // the sinks are read while the graph (and, single-threaded, every block) still exists
+            let data: Vec<Vec<u64>> = sinks.iter().map(|s| s()).collect();
+            (r, data)
         } else {
             let mut gr = Graph::new();
             ttx.send(gr.cancel_token()).unwrap();
             for b in blocks {
                 gr.add(b);
             }
-            quiet(|| gr.run().map_err(|e| e.to_string()))
+            let r = quiet(|| gr.run().map_err(|e| e.to_string()));
+            let data: Vec<Vec<u64>> = sinks.iter().map(|s| s()).collect();
+            (r, data)
         };
         let _ = tx.send(res);
     });
     let token = trx.recv().unwrap();
-    let res = match rx.recv_timeout(std::time::Duration::from_secs(30)) {
+    let (res, data) = match rx.recv_timeout(std::time::Duration::from_secs(30)) {
         Ok(r) => r,
         Err(_) => {
             token.cancel();
@@ -443,7 +479,7 @@ fn run_config(seed: u64, cfg: Config, rng: &mut Rng) -> std::result::Result<Vec<
     };
     th.join().ok();
     match res {
-        Ok(Ok(())) => Ok(sinks.iter().map(|s| s()).collect()),
+        Ok(Ok(())) => Ok(data),
         Ok(Err(e)) => Err(format!("run() returned an error: {e}")),
         Err(p) => Err(format!("run() panicked: {p}")),
     }
@@ -468,6 +504,8 @@ pub fn run(args: &[String]) -> Vec<String> {
     let seed = arg_usize(args, "--seed", 1) as u64;
     let cases = arg_usize(args, "--cases", 50);
     let which = arg(args, "--runner").unwrap_or("both".into());
+    let filedir = tempfile::tempdir().unwrap();
+    *FILE_DIR.lock().unwrap() = Some(filedir.path().to_path_buf());
     let configs_per = arg_usize(args, "--configs", 4);
     install_activity();
     let mut rng = Rng::new(seed);
@@ -533,6 +571,8 @@ pub fn run(args: &[String]) -> Vec<String> {
         }
     }
     rustradio::verif::set_callback(None);
+    *FILE_DIR.lock().unwrap() = None;
+    drop(filedir);
     out
 }
 
